@@ -213,7 +213,26 @@ func (g *Graph) EdgeFacts(b *cfg.Block, k int) []Fact {
 	if c == nil {
 		return nil
 	}
-	return Atoms(*c)
+	return g.expandAtoms(Atoms(*c), 0)
+}
+
+// expandAtoms adds, for every atom that is a boolean local with an unambiguous
+// definition (`local := a == b; if local && ...`), the atoms of the definition.
+func (g *Graph) expandAtoms(in []Fact, depth int) []Fact {
+	out := in
+	if depth > 3 {
+		return out
+	}
+	for _, ft := range in {
+		id, ok := ast.Unparen(ft.E).(*ast.Ident)
+		if !ok {
+			continue
+		}
+		if rhs := g.Fn.LocalDef(id); rhs != nil {
+			out = append(out, g.expandAtoms(Atoms(Fact{rhs, ft.Val}), depth+1)...)
+		}
+	}
+	return out
 }
 
 // EdgeImplies reports whether taking the edge implies the guard.
